@@ -8,7 +8,7 @@ LEVEL = "exploration"
 RULE = (
     "tables of 0-8 rows over per-field pools of accepted and rejected cells (pools come from the C02 generators and "
     "are classified by M-field), ragged rows (too short, too long, empty) where the storage allows, CIDs of 1-5 fields "
-    "of mixed types with an optional IsUnique check, header 0-2 (header rows hold junk), stored as delimited text "
+    "of mixed types with none, one or two IsUnique checks (rows that repeat the key of one check only), header 0-2 (header rows hold junk), stored as delimited text "
     "(stream and file), fixed text (stream and file), generated ODS and generated XLSX; read with "
     "cutplace.rows(on_error='yield') and compared item by item with M-rows o M-raw: verdict per row, row number, first "
     "offending column, input name in the location, field name in the message. A case is (CID, table, storage), "
@@ -27,9 +27,16 @@ def gen_case(rng, store):
         fields.append(decl)
         pools.append((accept, reject))
     checks = []
-    if rng.random() < 0.4:
+    dice = rng.random()
+    if dice < 0.4:
         k = rng.sample(range(nfields), rng.randint(1, min(2, nfields)))
         checks.append({"desc": "uniq", "type": "IsUnique", "fields": ["f%d" % i for i in sorted(k)]})
+    elif dice < 0.6 and nfields >= 2:
+        # two row checks over different keys: a row is judged by every check, in the order of declaration, and a
+        # row that one of them rejects is no "earlier accepted row" for the other
+        first, second = rng.sample(range(nfields), 2)
+        checks.append({"desc": "uniq", "type": "IsUnique", "fields": ["f%d" % first]})
+        checks.append({"desc": "uniq two", "type": "IsUnique", "fields": ["f%d" % second]})
     header = rng.choice([0, 0, 1, 2])
     model = RM.CidModel(kind, fields, checks, header, dec, ths, line_delimiter=rng.choice(["lf", "cr", "crlf", None]) if kind == "fixed" else None)
     if kind == "delimited":
@@ -63,6 +70,12 @@ def gen_case(rng, store):
                 row = []
         if checks and table[header:] and rng.random() < 0.3:
             row = list(rng.choice(table[header:]))  # provoke duplicates
+        elif len(checks) == 2 and table[header:] and rng.random() < 0.5:
+            # duplicate under one of the two checks only
+            earlier = rng.choice(table[header:])
+            keep = int(rng.choice(checks)["fields"][0][1:])
+            if keep < len(earlier) and keep < len(row):
+                row[keep] = earlier[keep]
         table.append(row)
     if kind == "excel":
         # xlsx cannot hold trailing empty rows/cells distinctly; keep the case but M-raw decides what is read
